@@ -261,11 +261,24 @@ def grange(*a):
         raise alg.Undecided("generic range with a step")
 
     def gen():
+        import sys
+
         C.nloop += 1
         name = "t%d" % C.nloop
         C.loops.append((C.nloop, name, lo, hi))
+        var = Aff.var(name)
+        frame = sys._getframe(1)  # the gbasis function whose for-loop drives this generator
+        before = {k: id(v) for k, v in frame.f_locals.items()}
         try:
-            yield Aff.var(name)
+            yield var
+            # the body ran once with a symbolic iteration variable: that stands for every iteration only if the body carries
+            # no state from one iteration to the next other than the tables - a local that existed before the loop and is
+            # rebound inside it would be such a state
+            after = frame.f_locals
+            carried = [k for k, i0 in before.items() if k in after and id(after[k]) != i0 and after[k] is not var]
+            if carried:
+                raise alg.Undecided("local variable(s) %s rebound inside a loop with symbolic bounds (loop-carried state is outside "
+                                    "the generic-element fragment)" % ", ".join(sorted(carried)))
         finally:
             C.loops.pop()
 
@@ -429,6 +442,7 @@ class GArray:
         self.tid = C.ntab if C is not None else 0
         if C is not None:
             C.ntab += 1
+            C.tables = getattr(C, "tables", []) + [list(self.dims)]
 
     @property
     def shape(self):
